@@ -17,11 +17,13 @@ func run(r *core.Run) {
 		"swap stream: every ordered pair of ring files swapped / copied to a fresh path; forge stream: correctly re-signed rings with key data moved to another ring, slot or purpose; tamper stream: every byte of every ring file modified (3 values quick, all 255 thorough); " +
 		"v1 write-log stream: every key-producing operation of a real v1 key store (valid ids incl. look-alikes such as 'alpha_hmac', rotations, poison and log keys; invalid ids with separators, '..', too short/long, non-ASCII) over a logging filesystem.Storage: every WriteFile is byte-scanned and must be reproduced by the model from (master key, key context, secret, nonce); every touched path must stay inside the key folder; every stored file is loaded under every other stored key context" +
 		"; v1 access stream: each of the 23 id-taking methods of the real v1 key store / translator key store (generators, getters, read-all, destroyers, rotated-key destroyers) over a recording filesystem.Storage in a key folder nested three levels deep, sandbox tree listed before and after: adversarial ids (../x, a/../../x, /abs, .., empty, NUL, 257 bytes, x/, look-alikes of the store's own names, random strings over a separator-rich alphabet) with victim files planted where the id points, and valid ids with all keys present (0-2 rotations) or absent; the model predicts the exact set of paths handed to the storage or the refusal; distinct by (method, id, scenario, index)" +
-		"; permission streams: random histories on real v1 and v2 key stores under umask 022/000/027/077 with every created entry stat'ed and compared with the model's mode for its creation site; opening both formats over an existing directory of each of the 512 modes (quick: 64 + boundary + sample); loadPrivateKey on a key file of each mode; symlink stream: planted links (observation only, trusted base) and write-through check"
+		"; permission streams: random histories on real v1 and v2 key stores under umask 022/000/027/077 with every created entry stat'ed and compared with the model's mode for its creation site; opening both formats over an existing directory of each of the 512 modes (quick: 64 + boundary + sample); loadPrivateKey on a key file of each mode; symlink stream: planted links (observation only, trusted base) and write-through check" +
+		"; ring-open streams: every read-write method of the v2 ServerKeyStore (26 rows of the regenerated table: generators, savers, destroyers, rotated-key destroyers, poison getters, the importers behind ImportKeyFileV1) and OpenKeyRingRW / OpenKeyRing / AddKey on an open handle / ImportKeyRings of the file-system key store, each on a fresh in-memory or directory back end holding ONE ring file built through the real API (three generations) and then left untouched, removed, or tampered: one byte changed inside the signed span, inside the signature, in the DER framing; replaced by the ring of another identity; truncated; random bytes; emptied; bytes appended. The back end is read directly (os.ReadFile / the in-memory object) before and after: a tampered ring must make the call fail with every stored byte unchanged; distinct by (method, tamper kind, index)" +
+		"; framing stream: a valid ring file rebuilt around its untouched payload with 20 DER framings outside the signed span (bytes after the signature set / inside the signature element, extra unknown-algorithm or duplicate signatures – accepted by Go's reader, recorded; non-minimal / indefinite lengths, wrong tags, missing or unknown-only signatures, trailing bytes, malformed OIDs – refused), OpenKeyRing and OpenKeyRingRW against the model of the reader; rwopen-modes stream: the mode of `<ring>.keyring.new` just before the rename, of the ring file and of the created directories under umask 022/000/027/077"
 	for _, st := range []struct {
 		name string
 		f    func(*core.Run)
-	}{{"paths", runPaths}, {"der", runDer}, {"v2store", runV2Store}, {"v1store", runV1Store}, {"v1access", runV1Access}, {"v1import", runV1Import}, {"perms", runPerms}, {"symlinks", runSymlinks}} {
+	}{{"paths", runPaths}, {"der", runDer}, {"v2store", runV2Store}, {"v1store", runV1Store}, {"v1access", runV1Access}, {"v1import", runV1Import}, {"perms", runPerms}, {"symlinks", runSymlinks}, {"ringopen", runRingOpen}, {"ringframing", runRingFraming}} {
 		t0 := time.Now()
 		st.f(r)
 		r.Extra["wall_s_"+st.name] = float64(int(time.Since(t0).Seconds()*10)) / 10
